@@ -335,9 +335,32 @@ func checkC16(c *Ctx) {
 			})
 		}
 		ok := counts["Subscribe"]["svcConfig"] == 1 && counts["Subscribe"]["svcEndpoint"] == 1 && counts["Unsubscribe"]["svcConfig"] == 1 && counts["Unsubscribe"]["svcEndpoint"] == 1
+		// one sequential caller: the subscription clients assume that dependency updates are applied one after the
+		// other - an update applied on its own goroutine can overtake an earlier one that is parked on the queue
+		var goAt ssa.Instruction
+		for _, fn := range withAnon(sd) {
+			eachInstr(fn, func(_ *ssa.BasicBlock, _ int, in ssa.Instruction) {
+				g, isGo := in.(*ssa.Go)
+				if !isGo {
+					return
+				}
+				for _, h := range p.callees(g) {
+					for _, x := range append([]*ssa.Function{h}, staticCalleesDeep(h, 2)...) {
+						if x.Name() == "Subscribe" || x.Name() == "Unsubscribe" {
+							goAt = in
+						}
+					}
+				}
+			})
+		}
+		pos := sd.Pos()
+		if goAt != nil {
+			pos = goAt.Pos()
+		}
+		c.Check(goAt == nil, "R5", "dependency updates applied in order", pos, "Subscribe/Unsubscribe are called on the dependency stream's goroutine", "Subscribe/Unsubscribe run on a goroutine per dependency update: a later update overtakes an earlier one that is parked on the full queue, its Unsubscribe/Subscribe is a no-op against a set the parked update changes afterwards - the subscribed set ends up different from the dependency set for good")
 		c.Check(ok, "R5", "dependency hook symmetric", sd.Pos(), "Subscribe and Unsubscribe on both the config and the endpoint client", fmt.Sprintf("the dependency hook is not symmetric over the two clients (%v): a dependency change is tracked on one stream only", counts))
 	}
-	c.Expect("R5", 2)
+	c.Expect("R5", 3)
 	checkSenderWokenByReceiver(c, "R6")
 }
 
